@@ -975,7 +975,7 @@ def check_history(rec, tpl, rows, prob, refs, bname, lb, ub, bkind, init, sidx, 
                 nrun += 1
                 algo, extra = cur['algo'], dict(cur['extra'])
                 fam = family_of(algo)
-                pattern = ('run1' if nrun == 1 else 'run2+') + ('+set:' + ''.join(sorted(changed)) if changed else '')
+                pattern = ('run1' if nrun == 1 else 'run2+') + (',set:' + ''.join(sorted(changed)) if changed else '')
 
                 def viol(clause, what, expected=None, observed=None):
                     rec.violation(f'C07|{clause}|family={fam}|bounds={bkind}|history={pattern}',
